@@ -519,8 +519,8 @@ static void body_count_if(const Input& in, unsigned T, int var) {
   sx::outcome(got);
 }
 
-static const char* V_FIND[] = {"pred=key<512", "pred=key>=512",
-                               "pred=id==n-1", "pred=id==0", "pred=id==n/2"};
+static const char* V_FIND[] = {"pred=key<512", "pred=id==n-1",
+                               "pred=key>=512", "pred=id==0", "pred=id==n/2"};
 static void body_find_if(const Input& in, unsigned T, int var) {
   std::string K = "find_if:" + tk(T) + ":";
   runtime(T);
@@ -533,9 +533,9 @@ static void body_find_if(const Input& in, unsigned T, int var) {
     case 0:
       return P(e);
     case 1:
-      return !P(e);
-    case 2:
       return e.id == n - 1;
+    case 2:
+      return !P(e);
     case 3:
       return e.id == 0;
     default:
@@ -805,13 +805,14 @@ struct Kernel {
   }
 };
 // sort and find_if are built on for_each, whose per-call cost (~0.3 ms, and
-// far more on a busy machine) dominates the run time: quick gives find_if 3 of
-// its 5 predicates.
+// far more on a busy machine) dominates the run time: quick gives find_if 2 of
+// its 5 predicates and sort 2 of its 3 variants (the third, sort(first,last),
+// only forwards std::less to the same code).
 static const Kernel KERNELS[] = {
-    {"sort", 3, 3, false, V_SORT, body_sort},
+    {"sort", 2, 3, false, V_SORT, body_sort},
     {"partition", 3, 4, true, V_PART, body_partition},
     {"count_if", 2, 2, false, V_PRED, body_count_if},
-    {"find_if", 3, 5, false, V_FIND, body_find_if},
+    {"find_if", 2, 5, false, V_FIND, body_find_if},
     {"accumulate", 3, 3, false, V_ACC, body_accumulate},
     {"map_reduce", 3, 3, false, V_MR, body_map_reduce},
     {"partial_sum", 2, 2, false, V_PS, body_partial_sum},
